@@ -890,6 +890,13 @@ class Part(object):
             else:
                 # times[i] == t, quarters[i] == quarter
                 pass
+        elif i < len(times) and times[i] == t and quarters[i] != quarter:
+            # the value in force before t equals quarter already, so the
+            # different value set at t is redundant now: remove it
+            del times[i]
+            del quarters[i]
+            i -= 1
+            changed = True
 
         if not changed:
             return
